@@ -8,7 +8,7 @@ package wh
 // as internal/waroot/malloc does) for a concrete configuration per case; the
 // E2 interpreter executes wa_malloc / wa_free symbolically. The harness drives a
 // bounded history from the initial state: K operations, each a malloc with a
-// symbolic size or a free of a symbolically chosen live block, and checks the
+// symbolic size (class enumerated, offset in the class symbolic) or a free of a symbolically chosen live block, and checks the
 // property's clauses after every operation by reading the heap.
 
 func init() { vfRegistry["VfH_heap"] = VfH_heap }
@@ -19,16 +19,22 @@ type vfLive struct {
 	mark   byte
 }
 
-const (
-	vfHeapBase = 4096 // must match the configuration the driver builds
-	vfMaxReq   = 200
-)
+
+// request sizes: 0, then classes [base, base+7]: 1..8, 9..16, 17..24 (l24), 25..32 (l32), 41..48 (l48),
+// 73..80 (l80), 81..88 (smallest variable block), 121..128, 193..200
+var vfClassBase = []uint32{0, 1, 9, 17, 25, 41, 73, 81, 121, 193}
 
 // configurations built by the driver: malloc_cap0, malloc_cap2, malloc_cap100
-var vfHeapMods = []string{"malloc_cap2", "malloc_cap0", "malloc_cap100"}
+var vfHeapMods = []string{"malloc_cap2", "malloc_cap0", "malloc_cap100", "rtheap"}
 
-// Cases: module x number of operations (2..4).
-func VfN_heap() int { return len(vfHeapMods) * 3 }
+// rtheap is the copy of the allocator inside a compiled Wa program (waroot/src/runtime/heap_malloc.wat.ws):
+// entry points runtime.malloc / runtime.free, exported by the driver as vf:runtime.malloc / vf:runtime.free.
+
+// Cases: number of operations (2..6, major) x module x class of the first request
+// (the first operation is always a malloc; fixing its class only splits the work).
+const vfOpsMin, vfOpsMax = 2, 6
+
+func VfN_heap() int { return (vfOpsMax - vfOpsMin + 1) * len(vfHeapMods) * len(vfClassBase) }
 
 func vfRd32(h int, a uint32) uint32 { return uint32(vfWasmMemRead(h, a, 4)) }
 
@@ -49,17 +55,17 @@ func vfHeapCheck(h int, live []vfLive, nOps int, label string) {
 	base := uint32(vfWasmGlobal(h, "__heap_base"))
 	hp := uint32(vfWasmGlobal(h, "__heap_ptr"))
 	pages := vfWasmPages(h)
-	vfAssert(base == vfHeapBase && hp >= base+48 && uint64(hp) <= uint64(pages)*65536, label+"/heap-pointer-inside-memory")
+	vfAssert(base%8 == 0 && base >= 1024 && hp >= base+48 && uint64(hp) <= uint64(pages)*65536, label+"/heap-pointer-inside-memory")
 	// live blocks: inside the heap, aligned, pairwise disjoint, markers and headers intact
 	ok := true
 	for i, b := range live {
-		if b.p%8 != 0 || b.p-8 < base+48 || uint64(b.p)+uint64(b.size) > uint64(hp) || b.size < b.req {
+		if b.p%8 != 0 || b.p-8 < base+48 || uint64(b.p)+uint64(b.size) > uint64(hp) {
 			ok = false
 		}
 		if vfRd32(h, b.p-8) != b.size {
 			ok = false
 		}
-		if b.req > 0 && (byte(vfWasmMemRead(h, b.p, 1)) != b.mark || byte(vfWasmMemRead(h, b.p+b.req-1, 1)) != b.mark) {
+		if b.size > 0 && (byte(vfWasmMemRead(h, b.p, 1)) != b.mark || byte(vfWasmMemRead(h, b.p+b.size-1, 1)) != b.mark) {
 			ok = false
 		}
 		for j := 0; j < i; j++ {
@@ -103,24 +109,43 @@ func vfHeapCheck(h int, live []vfLive, nOps int, label string) {
 
 func VfH_heap() {
 	k := vfCase()
-	mod, nOps := vfHeapMods[k/3], 2+k%3
-	vfNote("case:" + mod + "/ops=" + string(rune('0'+nOps)))
+	nc := len(vfClassBase)
+	nOps, mod, first := vfOpsMin+k/(len(vfHeapMods)*nc), vfHeapMods[k/nc%len(vfHeapMods)], k%nc
+	vfNote("case:" + mod + "/ops=" + string(rune('0'+nOps)) + "/first=" + string(rune('0'+first)))
 	h := vfWasmLoad(mod)
+	fnMalloc, fnFree := "wa_malloc", "wa_free"
+	if mod == "rtheap" {
+		fnMalloc, fnFree = "vf:runtime.malloc", "vf:runtime.free"
+	}
 	_, trapped := vfWasmCall(h, "_start")
 	vfAssert(!trapped, "heap/start-ok")
+	if mod == "rtheap" {
+		// the runtime initialises its heap lazily: one allocation and release brings it to a defined state
+		r0, _ := vfWasmCall(h, fnMalloc, 8)
+		vfWasmCall(h, fnFree, r0[0])
+	}
 	var live []vfLive
-	names := []string{"0", "1", "2", "3"}
+	names := []string{"0", "1", "2", "3", "4", "5"}
 	for op := 0; op < nOps; op++ {
 		doFree := len(live) > 0 && vfChoice("free"+names[op], 2) == 1
 		if doFree {
 			v := vfChoice("victim"+names[op], len(live))
-			_, tr := vfWasmCall(h, "wa_free", uint64(live[v].p))
+			_, tr := vfWasmCall(h, fnFree, uint64(live[v].p))
 			vfAssert(!tr, "heap/free-of-live-block-does-not-trap")
 			live = append(live[:v:v], live[v+1:]...)
 		} else {
-			req := vfU32("size" + names[op])
-			vfAssume(req <= vfMaxReq)
-			res, tr := vfWasmCall(h, "wa_malloc", uint64(req))
+			// size = class base + d with d a symbolic 3-bit value: the class (which decides the
+			// aligned size and therefore every address) is enumerated, the position inside the
+			// class is decided by the solver; class 0 is the request of exactly 0 bytes
+			cls := first
+			if op > 0 {
+				cls = vfChoice("class"+names[op], len(vfClassBase))
+			}
+			req := vfClassBase[cls]
+			if cls > 0 {
+				req += uint32(vfU8("d"+names[op]) & 7)
+			}
+			res, tr := vfWasmCall(h, fnMalloc, uint64(req))
 			vfAssert(!tr, "heap/malloc-does-not-trap")
 			if tr {
 				return
@@ -134,9 +159,9 @@ func VfH_heap() {
 			}
 			size := vfRd32(h, p-8)
 			mark := byte(0xA0 + op)
-			if req > 0 {
+			if size > 0 {
 				vfWasmMemWrite(h, p, 1, uint64(mark))
-				vfWasmMemWrite(h, p+req-1, 1, uint64(mark))
+				vfWasmMemWrite(h, p+size-1, 1, uint64(mark))
 			}
 			// not already live
 			fresh := true
@@ -146,6 +171,7 @@ func VfH_heap() {
 				}
 			}
 			vfAssert(fresh, "heap/malloc-returns-a-block-that-is-not-live")
+			vfAssert(size >= req, "heap/block-at-least-as-large-as-requested")
 			live = append(live, vfLive{p: p, req: req, size: size, mark: mark})
 		}
 		vfHeapCheck(h, live, nOps, "heap")
